@@ -55,6 +55,31 @@ def run(ctx):
         render.append((wc, h, 1, 1, 1, 0))
     impl_r, model_r = ctx.correspond("to_str", render, py_str,
                                      lambda c: f"addr_str {fmtz(c[0])} {c[1]} {c[2]} {c[3]} {c[4]} {c[5]}")
+    if ctx.thorough():
+        # three-way agreement: Model/Address.to_str evaluated INSIDE Coq (vm_compute, incl. the generated CRC-16 table) on a
+        # sample of renderings must give the bytes the extracted OCaml driver gave (and hence what the implementation gave)
+        sample = [c for c in render if -128 <= c[0] <= 127][:: max(1, len(render) // 60)][:60]
+        b2 = lambda x: "true" if x else "false"
+        lit = "; ".join("(%s, [%s], %s, %s, %s, %s)" % (("(%d)%%Z" % c[0]), "; ".join(str(x) for x in bytes.fromhex(c[1])),
+                                                        b2(c[2]), b2(c[3]), b2(c[4]), b2(c[5])) for c in sample)
+        term = ("flat_map (fun c => match c with (wc, h, f, u, b, t) => match to_str wc h f u b t with Ok l => N.of_nat (length l) :: l "
+                "| Err _ => [999999] end end) [" + lit + "]")
+        nums, err = core.coq_eval_numbers("Base.Result Base.Bytes Model.Address", term, "c13_cases", timeout=900)
+        if nums is None:
+            ctx.broken.append("in-Coq evaluation of the address model failed: " + err[:200])
+        else:
+            mmap = dict(zip(render, model_r))
+            want = []
+            for c in sample:
+                m = mmap[c]
+                if m.startswith("ok "):
+                    bs_ = bytes.fromhex(m[3:])
+                    want += [len(bs_)] + list(bs_)
+                else:
+                    want += [999999]
+            if nums != want:
+                ctx.broken.append("extraction cross-check: Coq's vm_compute and the extracted OCaml model disagree on address texts")
+            ctx.extra["in_coq_cross_check_renderings"] = len(sample)
     strings = []
     exp = {}
     for c, a in zip(render, impl_r):
